@@ -1201,6 +1201,20 @@ example :
   exact ⟨hreq, concretize_request_sound σ preq PS.srPes [p] PS.srEs req hcf hreq, by decide +kernel, ⟨pr2, h1, h2, by decide +kernel⟩,
     rfl, rfl, rfl⟩
 
+/-- … the other context branch of `concretize_request`: a **missing** context supplied by σ's `context` record; a context that
+    is present conflicts with it; a non-record value for `context` is rejected. -/
+example :
+    let σ : Mapper := [("context", .record [("lim", .prim (.int 7))])]
+    let req : Request := ⟨⟨"User", "a"⟩, ⟨"A", "x"⟩, ⟨"R", "r"⟩, [("lim", .prim (.int 7))]⟩
+    let preq : PRequest := ⟨.known ⟨"User", "a"⟩, .known ⟨"A", "x"⟩, .known ⟨"R", "r"⟩, none⟩
+    (isAuthorizedCore [] preq ⟨[], false⟩ []).concretizeRequest σ = .ok (.ofConcrete req) ∧
+    PS.Concretizes2 σ [] preq req ∧
+    (isAuthorizedCore [] (.ofConcrete req) ⟨[], false⟩ []).concretizeRequest σ = .error .concretization ∧
+    (isAuthorizedCore [] preq ⟨[], false⟩ []).concretizeRequest [("context", .prim (.int 1))] = .error .concretization := by
+  intro σ req preq
+  have hreq : (isAuthorizedCore [] preq ⟨[], false⟩ []).concretizeRequest σ = .ok (.ofConcrete req) := rfl
+  exact ⟨hreq, concretize_request_sound σ preq ⟨[], false⟩ [] [] req (by intro kvs hk; cases hk) hreq, rfl, rfl⟩
+
 /-! ### calls of the `unknown` extension function in the policy text -/
 
 /-- **unknown_call_counterexample** (kernel-checked) — the soundness statement is FALSE for policies that call the
